@@ -133,14 +133,51 @@ Standard containers
   present keeps its value); such a container is passed whole to a translated callee. The fixed-location reading of `front()` /
   `begin()->` above stays available (a container cannot be used both ways in one function).
 
+Phase 3 (C02 C05 C09 C14)
+* `Eigen::Transform<T, 3, Affine>` (`Affine3d`) = the 16 coefficients of its 4x4 matrix (`T_i_j`); `Identity()`; the views `.linear()`
+  `.translation()` `.matrix()` — and `.col(j) .row(i) .block<R, C>(i, j) .head<N>() .tail<N>()` of any fixed-size Eigen lvalue, nested — as
+  assignment targets (`view = expr;`), comma-initialiser targets (`view << a, b, c;`: row-major order, scalar items, exact count),
+  `setZero/setOnes/setConstant` targets and values; `(V() << a, b, c).finished()`; `T * v` = head of `T.matrix() * (v, 1)`, each row
+  `((m_i0 v0 + m_i1 v1) + m_i2 v2) + m_i3 * 1`; `T.inverse()` (no hint argument, `double` only) as Eigen 3.4 computes it for fixed size 3 with
+  SSE2 packets: cofactor inverse of the linear part (`det = c00 m00 + (c10 m10 + c20 m20)`, `invdet = 1 / det`, entries `cofactor * invdet`),
+  translation `(-Linv) * t` with rows 0, 1 summed left to right and row 2 as `a0 + (a1 + a2)`, last row `0 0 0 1` — a TRUSTED reading of the
+  library, chosen to be the one of the hand-written model (which the correspondence check fits bit for bit to the compiled code);
+  `head<N>() / tail<N>()` with a non-literal template argument read N from the instantiated result type; classes derived from a fixed-size
+  matrix (`HomogeneousCoordinates3<double>`) have the keys of their base;
+* value-initialisation `T()` of a class without user-provided default constructor (clang's `zeroing`): every scalar member zero; a
+  `constexpr` integer local whose initialiser cannot be followed (a static member of a class of another dump pass) has NO value (a read is an
+  error; its uses as template arguments are already substituted); static constants of class template SPECIALISATIONS are followed by
+  declaration id and are literals (a by-name definition would be shared between instantiations);
+* `std::vector` of small fixed-size Eigen vectors (lists of coordinate tuples): `std::vector<V>(n)` (n entries, Eigen leaves them
+  indeterminate: filled with zeros, a read before the first write is not detected), `v[i] = x;` (`vecSet?`), `v[i]` as a written reference
+  argument of a translated callee and as the target `v[i].data()` of `std::copy` (element read, updated, written back); `std::vector` of a
+  plain struct of 2-8 scalars of mixed kinds (read only): a list of tuples in member order (type code `T<codes>`); such vectors passed on as
+  whole arguments; inside loops they are ONE carried leaf; `while (++n != N)`: the exit values of a loop whose condition has a side effect
+  are those after the condition was evaluated; a loop variable bound to a CONST reference parameter of a callee is not "modified" (counted loop);
+* `std::copy(A.data(), A.data() + K, B.data())` on fixed-size Eigen objects, K constant: the first K coefficients in storage order;
+* dynamic-size Eigen matrices / vectors of `double` / `float` (`Matrix<T, Dynamic, Dynamic | 1>`) are ONE leaf, a functional array
+  `Int → Int → α` / `Int → α` (type codes `M2a M1a`): `M(i, j)` / `v(i)` reads, `M(i, j) = x` (`dynSet2`, `dynSet1`); sizes are not tracked:
+  Eigen's `operator()` is unchecked under NDEBUG, an out-of-range access is undefined behaviour and NOT detected;
+* ORACLES (spec key `oracles`: member function name -> dict(writes=[members], reads=[members], hides=[members])): numerical routines that stay
+  parameters of the model. A call sets every leaf of the `writes` members, and yields as result (a scalar, or the coefficients of the
+  fixed-size object the result is converted to), the application of an uninterpreted function `<oracle>_<leaf>` / `<oracle>_ret…` to the
+  scalar arguments followed by the current values of the `reads` members. Aggregate arguments must be const-reference parameters of the
+  translated function (the same at every call) and are not passed; `hides` members (touched by the oracle, not modelled) may not be read by
+  any translated function of the spec. The oracle's dependence on the rest of its object is NOT represented (a contract of the spec);
+* a free function whose body was dumped by ANOTHER clang pass (anonymous namespace + `extra_filters`; declaration ids differ between
+  passes) is found by name and type; spec key `source_getters` (name -> dict(cls=, member=, source=)): a trivial getter defined in a .cpp that
+  is too expensive to parse is checked on the CURRENT source text (every definition must be exactly `return member;`); members of
+  `C<float, …>` without a floating expression of their own work in `float`.
+
 Anything else (function-local `static`, writes to globals, unknown calls, unsupported statements) makes the function
 UNTRANSLATABLE: the generated file then holds a comment with the reason and no definition of that name, so that the
 bridge theorem about it no longer compiles.
 
 Spec-wide keys, besides `id sources headers extra filter extra_filters macros imports opens functions uninterpreted externs strip_ns`:
 `vector_encoding` ('checked' | 'plain'), `opaque_elements`, `incr_encoding` ('inline' | 'let'), `unsigned_wrap`,
-`fold_constant_conditions`, `unroll_constant_loops`, `abstract_classes` (list of class names), `whole_containers`, `range_for`. The
-defaults give the first-listed / option-less reading. A fixed-size `Eigen::Array<T, r, c>` has the leaves of the `Matrix` of that shape.
+`fold_constant_conditions`, `unroll_constant_loops`, `abstract_classes` (list of class names), `whole_containers`, `range_for`,
+`oracles`, `source_getters` (phase 3). The defaults give the first-listed / option-less reading. A fixed-size `Eigen::Array<T, r, c>` has the
+leaves of the `Matrix` of that shape.
 Only the Python standard library is used.
 """
 import json
@@ -496,7 +533,21 @@ def classify(t):
         return 'seq'       # sequence container in the plain encoding (std::queue / std::deque: always)
     if LIST_OPTS['encoding'] == 'checked' and vec_elem(t) is not None and classify(vec_elem(t)) in ('double', 'float', 'int', 'uint', 'bool'):
         return 'list'      # std::vector of scalars in the checked encoding
+    if DYN_RE.match(t):
+        return 'dyn'       # phase 3: Eigen::Matrix<T, Dynamic, Dynamic | 1>: a functional array (one leaf)
     return 'agg'
+
+
+# ---- dynamic-size Eigen matrices / vectors of double / float: ONE leaf, a total function from the indices to the coefficients
+#      (`Int → Int → α` / `Int → α`); sizes are not tracked (Eigen's operator() is unchecked under NDEBUG: an out-of-range access is
+#      undefined behaviour and is not detected)
+DYN_RE = re.compile(r'^(?:Eigen::)?Matrix<\s*(double|float)\s*,\s*-1\s*,\s*(-1|1)\b')
+
+
+def dyn_info(t):
+    """(C++ scalar type, number of indices) of a dynamic Eigen matrix / vector type (None for every other type)"""
+    m = DYN_RE.match(strip_cv(t))
+    return (m.group(1), 2 if m.group(2) == '-1' else 1) if m else None
 
 
 VEC_RE = re.compile(r'^(?:std::)?vector<\s*(.+?)\s*(?:,\s*[\w:]*allocator<.*>)?\s*>$')
@@ -668,13 +719,32 @@ class Sc:
         return 'Sc(%s:%s)' % (self.t, self.ty)
 
 
-TY_LEAN = {'a': 'α', 'd': 'δ', 'i': 'Int', 'b': 'Bool', 's': 'String',
+class _TyLean(dict):
+    """type code -> Lean type; `T<codes>` (phase 3: a std::vector of a struct of scalars, read only) is a list of tuples of the field types"""
+
+    def __missing__(self, k):
+        if isinstance(k, str) and len(k) >= 2 and k[0] == 'T' and all(c in 'adib' for c in k[1:]):
+            return 'List (%s)' % ' × '.join(self[c] for c in k[1:])
+        raise KeyError(k)
+
+    def __contains__(self, k):
+        return dict.__contains__(self, k) or (isinstance(k, str) and len(k) >= 2 and k[0] == 'T' and all(c in 'adib' for c in k[1:]))
+
+    def get(self, k, default=None):
+        return self[k] if k in self else default
+
+
+TY_LEAN = _TyLean()
+TY_LEAN.update({'a': 'α', 'd': 'δ', 'i': 'Int', 'b': 'Bool', 's': 'String',
            # lists (std::vector / std::queue / std::deque) of scalars / integers / booleans
            'la': 'List α', 'ld': 'List δ', 'li': 'List Int', 'lb': 'List Bool',
            # plain encoding with `opaque_elements`: list of opaque elements τ; an element of it; its checked read
            'le': 'List τ', 'e': 'τ', 'oe': 'Option τ',
            # an object of a class listed in the spec's `abstract_classes` (only bodiless virtual calls touch it): its abstract state
-           'o': 'σ'}
+           'o': 'σ'})
+for _c, _s in (('a', 'α'), ('d', 'δ')):      # phase 3: dynamic Eigen matrices / vectors as functional arrays
+    TY_LEAN['M2' + _c] = '(Int → Int → %s)' % _s
+    TY_LEAN['M1' + _c] = '(Int → %s)' % _s
 for _n in (2, 3, 4):      # checked encoding: std::vector of fixed-size Eigen vectors = lists of coordinate tuples
     for _c, _s in (('a', 'α'), ('d', 'δ'), ('i', 'Int')):
         TY_LEAN['L%d%s' % (_n, _c)] = 'List (%s)' % ' × '.join([_s] * _n)
@@ -896,6 +966,7 @@ class Translator:
         self.externs = spec.get('externs', {})   # C++ function name -> dict(lean=, classes=[...]) (e.g. fmod)
         self.actions = spec.get('actions', {})
         self.cur = None
+        self.hidden_members = set(h for o in spec.get('oracles', {}).values() for h in o.get('hides', []))      # phase 3
 
     # ------------------------------------------------------------------ type variables
     def tyvar(self, frame, ctype):
@@ -917,11 +988,16 @@ class Translator:
             return 'l' + ('e' if classify(el) == 'agg' else self.tyvar(frame, el))
         if c == 'list':
             return 'l' + self.tyvar(frame, vec_elem(ctype))
+        if c == 'dyn':
+            st, nidx = dyn_info(ctype)
+            return 'M%d%s' % (nidx, self.tyvar(frame, st))
         if c == 'agg' and vec_elem(ctype) is not None and LIST_OPTS['encoding'] == 'checked':      # std::vector of small fixed-size vectors of one scalar type
             sh = self.shape_of(vec_elem(ctype))
             tys = set(self.tyvar(frame, st) for _, st in sh)
             if 2 <= len(sh) <= 4 and len(tys) == 1 and list(tys)[0] in ('a', 'd', 'i') and all(len(p_) == 1 for p_, _ in sh):
                 return 'L%d%s' % (len(sh), list(tys)[0])
+            if self.is_struct_list(ctype):
+                return 'T' + ''.join(self.tyvar(frame, st) for _, st in sh)
         raise Untranslatable('non-scalar type %s where a scalar is needed' % ctype)
 
     # ------------------------------------------------------------------ lvalues
@@ -1105,6 +1181,8 @@ class Translator:
         name = path_name(self.root_name(env.frame, root), path)
         if root in env.local_roots:
             raise Untranslatable('read of uninitialised local `%s`' % name)
+        if root == 'this' and path and self.hidden_members and str(path[0]) in self.hidden_members:
+            raise Untranslatable('read of the member `%s`, which an oracle of the spec modifies without being modelled' % name)
         key = (root, tuple(path))
         if env.outer is not None:
             osc = self.read_leaf(env.outer, root, path, ty)
@@ -1136,6 +1214,9 @@ class Translator:
             if c == 1 or r == 1:
                 return [([(i,)], m.group(1)) for i in range(r * c)]
             return [([(i, j)], m.group(1)) for i in range(r) for j in range(c)]
+        tf = self.transform_type(t)
+        if tf is not None:      # phase 3: Eigen::Transform<T, 3, Affine> = the coefficients of its 4x4 matrix
+            return [([(i, j)], tf) for i in range(4) for j in range(4)]
         rid, rec = self.find_record(t)
         if rec is not None:
             return self.record_shape(rec)
@@ -1276,6 +1357,8 @@ class Translator:
             return self.eval_cast(n, env, pre)
         if k == 'CXXOperatorCallExpr' and self.is_vec_elem(n):      # phase 2: `v[i]` of a std::vector of scalars
             return self.vec_read(n, env, pre)
+        if k == 'CXXOperatorCallExpr' and self.is_dyn_elem(n):      # phase 3: `M(i, j)` / `v(i)` / `v[i]` of a dynamic Eigen matrix
+            return self.dyn_read(n, env, pre)
         if k == 'CXXMemberCallExpr' and self.list_method(n) is not None:
             return self.eval_list_call(n, env, pre)
         if k in ('CXXConstructExpr', 'CXXTemporaryObjectExpr') and classify(type_of(n)) == 'seq':
@@ -1363,6 +1446,12 @@ class Translator:
         if m.get('kind') == 'DeclRefExpr':
             rd = m.get('referencedDecl') or {}
             if rd.get('kind') == 'VarDecl' and not self.is_known_root(rd.get('id'), env) and not self.is_alias(rd.get('id'), env):
+                if classify(type_of(n)) in ('int', 'uint') and (self.tu.records.get(self.tu.parent.get(rd.get('id'))) or {}).get('kind') == 'ClassTemplateSpecializationDecl':
+                    # phase 3: a static constant of a class template SPECIALISATION (`C<T>::DIM`): its value for this instantiation,
+                    # followed by declaration id (a definition by name would be shared by every instantiation)
+                    si = self.static_int(m)
+                    if si is not None:
+                        return sc_lit(Sc(str(si) if si >= 0 else '(%d)' % si, 'i'), si)
                 return self.global_const(rd, type_of(n), frame)
         root, path = self.resolve_lvalue(n, env)
         return self.read_leaf(env, root, path, self.tyvar(frame, type_of(n)))
@@ -1385,6 +1474,8 @@ class Translator:
                 return self.eval(m, env, pre)
             if m.get('kind') == 'CXXOperatorCallExpr' and self.is_vec_elem(m):      # phase 2
                 return self.vec_read(m, env, pre)
+            if m.get('kind') == 'CXXOperatorCallExpr' and self.is_dyn_elem(m):      # phase 3
+                return self.dyn_read(m, env, pre)
             if m.get('kind') == 'UnaryOperator' and m.get('opcode') in ('++', '--') and not m.get('isPostfix'):      # phase 2: `--n == 0`
                 return self.eval(m, env, pre)
             if m.get('kind') == 'CallExpr':      # a function returning a reference to a scalar (std::min / std::max, ...)
@@ -1615,7 +1706,7 @@ class Translator:
         """type code of the callee -> type code of the caller"""
         if ty in ('la', 'ld'):
             return 'l' + self.map_ty(info, ty[1], frame)
-        if len(ty) == 3 and ty[0] == 'L' and ty[2] in ('a', 'd'):
+        if len(ty) == 3 and ty[0] in ('L', 'M') and ty[2] in ('a', 'd'):
             return ty[:2] + self.map_ty(info, ty[2], frame)
         if ty not in ('a', 'd'):
             return ty
@@ -1681,6 +1772,8 @@ class Translator:
             callee = self.callee_ref(n)
             mid = callee.get('referencedMemberDecl')
             base = callee['inner'][0] if callee.get('inner') else None
+            if callee.get('name') in self.spec.get('oracles', {}):      # phase 3: a member function that stays an ORACLE (spec key `oracles`)
+                return self.oracle_call(callee.get('name'), mid, base, n, env, pre)
             decl = self.method_def(mid)
             if decl is not None:
                 this_lv = self.resolve_lvalue(base, env)
@@ -1729,8 +1822,12 @@ class Translator:
         nm = rd.get('name')
         args = n['inner'][1:]
         decl = self.function_def(rd.get('id')) if nm not in self.spec.get('uninterpreted', {}) else None
+        if decl is None and nm not in self.spec.get('uninterpreted', {}):
+            decl = self.function_by_signature(rd)      # phase 3: a function of another dump pass (anonymous namespace)
         if decl is not None:
             return self.call_fn(decl, None, args, env, pre)
+        if nm == 'copy' and len(args) == 3 and self.std_copy_data(args, env, pre):      # phase 3: std::copy(A.data(), A.data() + K, B.data())
+            return None
         if nm in ('epsilon', 'max', 'lowest', 'min') and not args:
             m = re.match(r'^\s*(std::)?numeric_limits<\s*(double|float)\s*>::(epsilon|max|lowest|min)\s*\(\s*\)\s*$', self.tu.range_text(n))
             if m:      # the scalar type's Limits instance (RomeaModel/Scalar.lean)
@@ -2308,13 +2405,28 @@ class Translator:
                     for kk in p[:-1]:
                         cur = cur.setdefault(kk, {})
                     cur[p[-1]] = Sc(tuple_proj(base, i, n), self.map_ty(info, ty, frame))
+        elem_upd = {}
         for j, (root, path, ty) in enumerate(info.written):
             i = len(info.ret) + j
             if root == 'this':
                 lv = this_lv
+            elif self.is_tuple_elem(args[root]):      # phase 3: `f(…, v[n])`, v a std::vector of Eigen vectors: written back below
+                elem_upd.setdefault(root, {})[tuple(path)] = Sc(tuple_proj(base, i, n), self.map_ty(info, ty, frame))
+                continue
             else:
                 lv = self.resolve_lvalue(args[root], env)
             self.write(env, lv[0], list(lv[1]) + list(path), Sc(tuple_proj(base, i, n), self.map_ty(info, ty, frame)))
+        for root, upd in elem_upd.items():
+            if pre is None:
+                raise Untranslatable('call writing a vector element inside an expression')
+            if root not in arg_obj:
+                arg_obj[root] = self.eval_obj(args[root], env, pre)
+            obj = dict(arg_obj[root])
+            for p_, sc_ in upd.items():
+                if len(p_) != 1 or p_[0] not in obj:
+                    raise Untranslatable('callee writes a component the vector element does not have')
+                obj[p_[0]] = sc_
+            self.tuple_elem_store(args[root], obj, env, pre)
         return res
 
     def elem_ctype(self, ctype):
@@ -2657,6 +2769,8 @@ class Translator:
         k = m.get('kind')
         if self.is_list_index(m):
             return self.list_get(m, env, pre)
+        if k in ('DeclRefExpr', 'MemberExpr') and m.get('valueCategory') == 'lvalue' and self.is_list(type_of(m)):
+            return self.read_lvalue_scalar(m, env)      # phase 3: a std::vector of Eigen vectors / of structs passed on as a whole: one leaf
         r2 = self.eval_obj_phase2(m, k, ct, env, pre)
         if r2 is not None:
             return r2
@@ -2733,6 +2847,10 @@ class Translator:
         'vecSet?': "/-- `v[i] = x` on a `std::vector`; `none` = index outside the vector (undefined behaviour in C++) -/\n"
                    "def vecSet? {β : Type} (v : List β) (i : Int) (x : β) : Option (List β) :=\n"
                    "  if i < 0 then none else if i.toNat < v.length then some (v.set i.toNat x) else none",
+        'dynSet2': "/-- `M(i, j) = x` on a dynamic-size Eigen matrix seen as a functional array (sizes are not tracked) -/\n"
+                   "def dynSet2 {β : Type} (M : Int → Int → β) (i j : Int) (x : β) : Int → Int → β := fun a b => if a = i ∧ b = j then x else M a b",
+        'dynSet1': "/-- `v(i) = x` on a dynamic-size Eigen vector seen as a functional array (sizes are not tracked) -/\n"
+                   "def dynSet1 {β : Type} (v : Int → β) (i : Int) (x : β) : Int → β := fun a => if a = i then x else v a",
         'vecResize': "/-- `v.resize(n)` on a `std::vector`: truncated, or extended with value-initialised elements `z` -/\n"
                      "def vecResize {β : Type} (v : List β) (n : Int) (z : β) : List β := v.take n.toNat ++ List.replicate (n.toNat - v.length) z",
         'mapInsertNew': "/-- `std::map::insert(value)` on the entry list of a map (ascending keys): a key that is present keeps its value -/\n"
@@ -2827,6 +2945,8 @@ class Translator:
         reference (None otherwise)"""
         callee = self.callee_ref(n)
         decl = self.function_def(callee.get('referencedMemberDecl'))
+        if decl is None and len(n.get('inner', [])) == 1 and callee.get('name') in self.spec.get('source_getters', {}):
+            return self.source_getter(callee.get('name'))      # phase 3: a getter whose body is in a source file outside the translation unit
         if decl is None or len(n.get('inner', [])) != 1:
             return None
         rt = ((decl.get('type') or {}).get('qualType') or '').split('(')[0].strip()
@@ -2840,6 +2960,27 @@ class Translator:
         if e.get('kind') == 'MemberExpr' and e.get('inner') and strip_noop(e['inner'][0]).get('kind') == 'CXXThisExpr':
             return e.get('name')
         return None
+
+    def source_getter(self, nm):
+        """spec key `source_getters`: name -> dict(cls=, member=, source=repo-relative .cpp). The member function templates of a class
+        template that are defined in a .cpp with explicit instantiations can only be parsed by clang together with everything else that
+        file instantiates (seconds of front-end time). For a TRIVIAL GETTER the translator reads the CURRENT text of that source instead:
+        every definition `… cls<…>::nm() [const] { return member; }` must have exactly this body (comments and white space aside), and
+        there must be at least one; the member is then the result (as for a getter parsed by clang). Anything else: None (untranslatable)."""
+        g = self.spec['source_getters'][nm]
+        cache = self.__dict__.setdefault('_src_getters', {})
+        if nm not in cache:
+            ok = None
+            try:
+                txt = open(os.path.join(self.tu.repo, g['source'])).read()
+                txt = re.sub(r'//[^\n]*|/\*.*?\*/', ' ', txt, flags=re.S)
+                defs = re.findall(r'\b%s\s*<[^<>{};]*>\s*::\s*%s\s*\(\s*\)\s*(?:const\s*)?\{([^{}]*)\}' % (re.escape(g['cls']), re.escape(nm)), txt)
+                if defs and all(re.match(r'^\s*return\s+(?:this\s*->\s*)?%s\s*;\s*$' % re.escape(g['member']), b) for b in defs):
+                    ok = g['member']
+            except OSError:
+                ok = None
+            cache[nm] = ok
+        return cache[nm]
 
     def cwise_operand(self, x, env, pre):
         if classify(type_of(x)) == 'agg':
@@ -2924,6 +3065,20 @@ class Translator:
         frame = env.frame
         if k in ('CXXConstructExpr', 'CXXTemporaryObjectExpr') and vec_elem(ct) is not None:
             return self.vector_construct(m, ct, env, pre)
+        if k in ('CXXConstructExpr', 'CXXTemporaryObjectExpr') and len(m.get('inner', []) or []) == 1 and self.is_oracle_call(m['inner'][0]) \
+                and 'Matrix<' in strip_cv(type_of(m)):
+            # phase 3: `Eigen::Matrix<T, 3, 1> x = obj.oracle();` (a dynamic-size result converted to a fixed size)
+            return self.oracle_value(strip_noop(m['inner'][0]), type_of(m), env, pre)
+        if k in ('CXXConstructExpr', 'CXXTemporaryObjectExpr') and m.get('zeroing') and not m.get('inner') and self.find_record(ct)[1] is not None:
+            # phase 3: value-initialisation `T()` of a class without a user-provided default constructor: every scalar member is zero
+            res = {}
+            for p_, st in self.shape_of(ct):
+                sty = self.tyvar(frame, st)
+                cur = res
+                for kk in p_[:-1]:
+                    cur = cur.setdefault(kk, {})
+                cur[p_[-1]] = Sc('false', 'b') if sty == 'b' else Sc(self.zero_of(sty, frame), sty)
+            return res
         if k == 'CXXMemberCallExpr':
             callee = self.callee_ref(m)
             nm = callee.get('name')
@@ -2937,6 +3092,9 @@ class Translator:
                 return self.read_obj(env, root, path, ct)
             if not self.is_eigen_type(bt) or self.method_def(callee.get('referencedMemberDecl')) is not None:
                 return None
+            r3 = self.eigen_geom_member(nm, base, bt, args, m, ct, env, pre)      # phase 3: Transform members, views, `.finished()`
+            if r3 is not None:
+                return r3
             if nm in ('array', 'matrix', 'eval') and not args:
                 return self.eval_obj(base, env, pre)
             if nm == 'cast' and not args:
@@ -3012,6 +3170,10 @@ class Translator:
             if nm in LIBM1 and len(args) == 1 and self.is_eigen_type(type_of(args[0])) and classify(type_of(args[0])) == 'agg' \
                     and 'CwiseUnaryOp<' in ct:
                 return self.cwise1(self.eval_obj(args[0], env, pre), LIBM1[nm], frame)
+            if nm == 'Identity' and not args and self.transform_type(ct) is not None:      # phase 3: Eigen::Transform<T, 3, Affine>::Identity()
+                ty = self.tyvar(frame, self.transform_type(ct))
+                frame.need('NatCast', ty)
+                return {(i, j): Sc('((%d : Nat) : %s)' % (1 if i == j else 0, TY_LEAN[ty]), ty) for i in range(4) for j in range(4)}
             if nm == 'Constant' and len(args) == 1 and 'CwiseNullaryOp<' in ct and 'scalar_constant_op<' in ct:
                 keys, st = self.eigen_keys(ct)
                 v = self.num_to(self.eval(args[0], env, pre), self.tyvar(frame, st), frame)
@@ -3022,6 +3184,8 @@ class Translator:
         if k == 'CXXOperatorCallExpr':
             nm = (self.callee_ref(m).get('referencedDecl') or {}).get('name')
             ops = m['inner'][1:]
+            if nm == 'operator*' and len(ops) == 2 and self.transform_type(type_of(ops[0])) is not None:      # phase 3: `Transform * vector`
+                return self.transform_apply(ops[0], ops[1], env, pre)
             if nm in self.EIG_BIN and len(ops) == 2 and 'CwiseBinaryOp<' in ct and 'Product<' not in ct.split('CwiseBinaryOp<')[0]:
                 op, cls = self.EIG_BIN[nm]
                 A, B = self.cwise_operands(ops[0], ops[1], env, pre)
@@ -3139,6 +3303,23 @@ class Translator:
                 else:
                     acc = self.sc_minmax('min' if nm == 'minCoeff' else 'max', acc, sc, frame)
             return acc
+        if base is not None and self.is_eigen_type(bt) and nm in ('setConstant', 'setZero', 'setOnes') and len(args) == (1 if nm == 'setConstant' else 0) \
+                and self.is_eigen_view(base):
+            # phase 3: `v.tail<N>().setZero()`, `T.linear().setConstant(x)`: the coefficients of the view (possibly none)
+            root, path, vm = self.eigen_view(base, env)
+            _, st = self.outer_keys(type_of(strip_noop(base)))
+            ty = self.tyvar(frame, st)
+            if nm == 'setConstant':
+                v = self.num_to(self.eval(args[0], env, pre), ty, frame)
+            elif ty in ('a', 'd'):
+                if vm:
+                    frame.need('NatCast', ty)
+                v = Sc('((%d : Nat) : %s)' % (1 if nm == 'setOnes' else 0, TY_LEAN[ty]), ty)
+            else:
+                v = Sc('1' if nm == 'setOnes' else '0', 'i')
+            for sk, bk in vm:
+                self.write(env, root, list(path) + [bk], v)
+            return None
         if base is not None and self.is_eigen_type(bt) and nm in ('setConstant', 'setZero', 'setOnes') and len(args) == (1 if nm == 'setConstant' else 0):
             keys, st = self.eigen_keys(bt)
             ty = self.tyvar(frame, st)
@@ -3153,7 +3334,7 @@ class Translator:
         if base is not None and self.is_list(bt):
             root, path = self.resolve_lvalue(base, env)
             lty = self.tyvar(frame, bt)
-            if lty[0] == 'L' and nm not in ('size', 'empty'):
+            if lty[0] in ('L', 'T') and nm not in ('size', 'empty'):
                 return NotImplemented
             cur = self.read_leaf(env, root, path, lty)
             if nm == 'size' and not args:
@@ -3214,7 +3395,44 @@ class Translator:
                     raise Untranslatable('std::vector of vectors with a non-constant size')
                 lty = self.tyvar(frame, et)
                 return {(i,): Sc('([] : %s)' % TY_LEAN[lty], lty) for i in range(cnt.lit)}
+        if self.is_list(ct) and classify(ct) == 'agg':
+            # phase 3: `std::vector<V>()` / `std::vector<V>(n)`, V a small fixed-size Eigen vector: a list of n coordinate tuples. Eigen's
+            # default constructor leaves the coefficients INDETERMINATE; the translation fills them with zeros (a read before the first
+            # write is undefined behaviour in C++ and is not detected here)
+            lty = self.tyvar(frame, ct)
+            if not a:
+                return Sc('([] : %s)' % TY_LEAN[lty], lty)
+            if len(a) == 1 and classify(type_of(a[0])) in ('int', 'uint'):
+                cnt = self.eval(a[0], env, pre)
+                z = tuple_term([self.zero_of(lty[2], frame)] * int(lty[1]))
+                return Sc('(List.replicate (Int.toNat %s) %s)' % (par(cnt.t), z), lty)
+            if len(a) == 1 and self.is_list(type_of(a[0])) and strip_cv(type_of(a[0])) == strip_cv(ct):
+                return self.eval_obj(a[0], env, pre)
         raise Untranslatable('constructor of %s' % strip_cv(ct))
+
+    def exec_vec_tuple_assign(self, lhs, rhs, env, k):
+        """`v[i] = x;` on a std::vector of small fixed-size Eigen vectors (checked encoding): `vecSet? v i (x0, x1, …)`, the function's
+        result being `none` if `i` is outside `v`"""
+        frame = env.frame
+        lhs = strip_noop(lhs)
+        pre = []
+        e2 = env.copy()
+        val = self.eval_obj(rhs, e2, pre)
+        root, path = self.resolve_lvalue(lhs['inner'][1], e2)
+        lty = self.tyvar(frame, type_of(lhs['inner'][1]))
+        cur = self.read_leaf(e2, root, path, lty)
+        idx = self.eval(lhs['inner'][2], e2, pre)
+        if idx.ty != 'i':
+            raise Untranslatable('vector index that is not an integer')
+        cnt = int(lty[1])
+        if not isinstance(val, dict) or sorted(val.keys()) != [(i,) for i in range(cnt)] or \
+                not all(isinstance(val[(i,)], Sc) and val[(i,)].ty == lty[2] for i in range(cnt)):
+            raise Untranslatable('assignment to a vector element from an object of another shape')
+        self.need_helper('vecSet?')
+        self.set_partial(frame)
+        name = frame.fresh(path_name(self.root_name(frame, root), path))
+        self.write(e2, root, path, Sc(name, lty))
+        return self.wrap(pre, ('bind', name, 'vecSet? %s %s %s' % (par(cur.t), par(idx.t), tuple_term([val[(i,)].t for i in range(cnt)])), k(e2)))
 
     def is_vec_elem(self, n):
         n = strip_noop(n)
@@ -3234,8 +3452,26 @@ class Translator:
             sh = self.shape_of(vec_elem(ctype))
         except Untranslatable:
             return False
-        return 2 <= len(sh) <= 4 and len(set(strip_cv(st) for _, st in sh)) == 1 and all(len(p_) == 1 for p_, _ in sh) \
-            and classify(sh[0][1]) in ('double', 'float', 'int', 'uint')
+        if 2 <= len(sh) <= 4 and len(set(strip_cv(st) for _, st in sh)) == 1 and all(len(p_) == 1 for p_, _ in sh) \
+                and classify(sh[0][1]) in ('double', 'float', 'int', 'uint'):
+            return True
+        return self.is_struct_list(ctype)
+
+    def is_struct_list(self, ctype):
+        """phase 3: std::vector of a plain struct (a record of the translation unit, not an Eigen matrix) whose members are 2 to 8 scalars of
+        possibly different kinds: a list of tuples in member order (type code `T<codes>`), READ ONLY (`v[i]`, `v.size()`)"""
+        et = vec_elem(ctype)
+        if LIST_OPTS['encoding'] != 'checked' or et is None or classify(et) != 'agg' or re.search(r'\b(?:Matrix|Array)<', strip_cv(et)):
+            return False
+        rid, rec = self.find_record(et)
+        if rec is None or rec.get('bases'):
+            return False
+        try:
+            sh = self.record_shape(rec)
+        except Untranslatable:
+            return False
+        return 2 <= len(sh) <= 8 and all(len(p_) == 1 and isinstance(p_[0], str) for p_, _ in sh) and \
+            all(classify(st) in ('double', 'float', 'int', 'uint', 'bool') for _, st in sh)
 
     def set_partial(self, frame):
         f = frame
@@ -3260,6 +3496,9 @@ class Translator:
         if lty[0] == 'L':      # an element that is a small vector: its coordinates
             cnt = int(lty[1])
             return {(i,): Sc(tuple_proj(name, i, cnt), lty[2]) for i in range(cnt)}
+        if lty[0] == 'T':      # phase 3: an element that is a struct of scalars: its members
+            sh = self.shape_of(vec_elem(type_of(n['inner'][1])))
+            return {p_[0]: Sc(tuple_proj(name, i, len(sh)), lty[1 + i]) for i, (p_, _) in enumerate(sh)}
         return Sc(name, lty[1])
 
     def exec_vec_assign(self, lhs, rhs, op, node, env, k):
@@ -3281,6 +3520,533 @@ class Translator:
         name = frame.fresh(path_name(self.root_name(frame, root), path))
         self.write(env, root, path, Sc(name, lty))
         return self.wrap(pre, ('bind', name, 'vecSet? %s %s %s' % (par(cur.t), par(idx.t), par(v.t)), k(env)))
+
+    # ================================================================== phase 3: Eigen::Transform<T, 3, Affine>, writable views of
+    # fixed-size Eigen objects (`.linear() .translation() .col(j) .row(i) .block<R, C>(i, j)`), comma initialisers
+    TRANSFORM_RE = re.compile(r'^(?:Eigen::)?Transform<\s*(double|float)\s*,\s*(\d+)\s*,\s*(\d+)\s*(?:,\s*\d+\s*)?>$')
+    VIEW_NAMES = ('linear', 'translation', 'col', 'row', 'block', 'head', 'tail')
+
+    def transform_type(self, ctype):
+        """C++ scalar type of an `Eigen::Transform<T, 3, Affine>` (`Affine3d`, `Affine3f`) type; None for every other type; other
+        dimensions / modes (Isometry, AffineCompact, Projective) are refused"""
+        mm = self.TRANSFORM_RE.match(strip_cv(ctype))
+        if not mm:
+            return None
+        if int(mm.group(2)) != 3 or int(mm.group(3)) != 2:
+            raise Untranslatable('Eigen::Transform other than a 3-dimensional Affine one (%s)' % strip_cv(ctype))
+        return mm.group(1)
+
+    def outer_keys(self, ctype):
+        """coefficient keys and C++ scalar type of a fixed-size Eigen lvalue type, read from the OUTERMOST template: a
+        `Block<X, R, C, …>` is R x C (whatever X is), a `Transform<T, 3, Affine>` its 4x4 matrix, anything else as `eigen_keys`"""
+        t = strip_cv(ctype)
+        tf = self.transform_type(t)
+        if tf is not None:
+            return [(i, j) for i in range(4) for j in range(4)], tf
+        mv = re.match(r'^(?:Eigen::)?VectorBlock<(.*),\s*(-?\d+)\s*>$', t)
+        if mv:      # `v.head<N>()`, `v.tail<N>()`: N coefficients (possibly none)
+            _, st = self.eigen_keys(t)
+            if not 0 <= int(mv.group(2)) <= 64:
+                raise Untranslatable('vector block type %s without a small fixed size' % t[:120])
+            return [(i,) for i in range(int(mv.group(2)))], st
+        mm = re.match(r'^(?:Eigen::)?Block<', t)
+        if mm:
+            d, parts, cur = 0, [], ''
+            for ch in t[t.index('<') + 1:]:
+                if ch == '<':
+                    d += 1
+                elif ch == '>':
+                    if d == 0:
+                        break
+                    d -= 1
+                if ch == ',' and d == 0:
+                    parts.append(cur.strip())
+                    cur = ''
+                else:
+                    cur += ch
+            parts.append(cur.strip())
+            try:
+                r, c = int(parts[1]), int(parts[2])
+            except (IndexError, ValueError):
+                raise Untranslatable('block type %s without fixed sizes' % t[:120])
+            if r < 1 or c < 1 or r * c > 64:
+                raise Untranslatable('block type %s without small fixed sizes' % t[:120])
+            _, st = self.eigen_keys(t)
+            if c == 1 or r == 1:
+                return [(i,) for i in range(r * c)], st
+            return [(i, j) for i in range(r) for j in range(c)], st
+        if not re.search(r'\b(?:Matrix|Array)<', t) and self.find_record(t)[1] is not None:
+            sh = self.shape_of(t)      # a class derived from a fixed-size Eigen matrix (HomogeneousCoordinates3<double>)
+            if sh and all(len(p_) == 1 and isinstance(p_[0], tuple) for p_, _ in sh) and len(set(strip_cv(st_) for _, st_ in sh)) == 1:
+                return [p_[0] for p_, _ in sh], sh[0][1]
+        return self.eigen_keys(t)
+
+    def is_eigen_view(self, n):
+        """`X.linear()`, `X.translation()`, `X.col(j)`, `X.row(i)`, `X.block<R, C>(i, j)` (possibly nested) of an Eigen lvalue"""
+        m = strip_noop(n)
+        if m.get('kind') != 'CXXMemberCallExpr':
+            return False
+        callee = self.callee_ref(m)
+        if callee.get('kind') != 'MemberExpr' or not callee.get('inner') or callee.get('name') not in self.VIEW_NAMES:
+            return False
+        return self.is_eigen_type(type_of(callee['inner'][0])) and self.method_def(callee.get('referencedMemberDecl')) is None
+
+    def eigen_view(self, n, env):
+        """(root, path, [(key inside the view, key of the underlying object)]) of a writable view of a fixed-size Eigen lvalue. The view
+        keys are listed in ROW-MAJOR order (the order in which a comma initialiser fills them)."""
+        m = strip_noop(n)
+        if self.is_eigen_view(m) or (m.get('kind') == 'CXXMemberCallExpr' and self.callee_ref(m).get('name') in ('matrix', 'array')
+                                     and self.callee_ref(m).get('inner') and len(m['inner']) == 1
+                                     and self.is_eigen_type(type_of(self.callee_ref(m)['inner'][0]))):
+            callee = self.callee_ref(m)
+            nm = callee.get('name')
+            base = callee['inner'][0]
+            root, path, bm = self.eigen_view(base, env)
+            bmap = dict(bm)
+            args = m['inner'][1:]
+            if nm in ('matrix', 'array'):
+                return root, path, bm
+            is_tf = self.transform_type(type_of(base)) is not None
+            if nm == 'linear' and is_tf and not args:
+                return root, path, [((i, j), bmap[(i, j)]) for i in range(3) for j in range(3)]
+            if nm == 'translation' and is_tf and not args:
+                return root, path, [((i,), bmap[(i, 3)]) for i in range(3)]
+            if is_tf:
+                raise Untranslatable('member function `%s` of an Eigen::Transform as an lvalue' % nm)
+            mat = bool(bmap) and all(len(kk) == 2 for kk in bmap)
+            if nm in ('col', 'row') and len(args) == 1 and mat:
+                j = self.const_int(args[0], env)
+                sel = sorted(kk for kk in bmap if (kk[1] if nm == 'col' else kk[0]) == j)
+                if not sel:
+                    raise Untranslatable('%s(%d) outside the matrix' % (nm, j))
+                return root, path, [(((kk[0] if nm == 'col' else kk[1]),), bmap[kk]) for kk in sel]
+            if nm == 'block' and mat:
+                sub = self.block_map(m, {kk: None for kk in bmap}, env)
+                return root, path, [(sk, bmap[bk]) for sk, bk in sub]
+            if nm in ('head', 'tail') and not [a_ for a_ in args if a_.get('kind') != 'CXXDefaultArgExpr'] and bmap and all(len(kk) == 1 for kk in bmap):
+                cnt = len(self.outer_keys(type_of(m))[0])      # `head<N>()` / `tail<N>()`: N is read from the instantiated result type
+                size = len(bmap)
+                if cnt > size:
+                    raise Untranslatable('%s<%d>() outside the vector' % (nm, cnt))
+                lo = 0 if nm == 'head' else size - cnt
+                return root, path, [((i,), bmap[(lo + i,)]) for i in range(cnt)]
+            raise Untranslatable('view `%s` of an Eigen object with these arguments' % nm)
+        if m.get('valueCategory') == 'lvalue' and m.get('kind') in ('DeclRefExpr', 'MemberExpr', 'CXXMemberCallExpr'):
+            root, path = self.resolve_lvalue(m, env)
+            keys, _ = self.outer_keys(type_of(m))
+            return root, path, [(kk, kk) for kk in keys]
+        raise Untranslatable('view of an Eigen expression that is not an lvalue')
+
+    def write_view(self, env, root, path, items, k):
+        """write [(key of the underlying object, value)] leaf by leaf (each bound to a name), in the given order"""
+        def go(rest, e):
+            if not rest:
+                return k(e)
+            bk, v = rest[0]
+            return self.bind_obj(e, root, list(path) + [bk], v, lambda e3: go(rest[1:], e3))
+        return go(list(items), env)
+
+    def view_assign(self, lhs, rhs, env, k):
+        """`view = expr;` : the coefficients of the view are written one by one"""
+        pre = []
+        e2 = env.copy()
+        val = self.eval_obj(rhs, e2, pre)
+        root, path, vm = self.eigen_view(lhs, e2)
+        if not isinstance(val, dict) or set(val.keys()) != set(sk for sk, _ in vm) or not all(isinstance(v, Sc) for v in val.values()):
+            raise Untranslatable('assignment to a view from an object of another shape')
+        return self.wrap(pre, self.write_view(e2, root, path, [(bk, val[sk]) for sk, bk in vm], k))
+
+    def comma_items(self, n):
+        """(target expression, [item expressions]) of `target << a, b, c` (None if `n` is not such a chain)"""
+        items = []
+        m = strip_noop(n)
+        while m.get('kind') == 'CXXOperatorCallExpr' and len(m.get('inner', [])) == 3 and \
+                (self.callee_ref(m).get('referencedDecl') or {}).get('name') == 'operator,' and 'CommaInitializer<' in type_of(m):
+            items.insert(0, m['inner'][2])
+            m = strip_noop(m['inner'][1])
+        if m.get('kind') == 'CXXOperatorCallExpr' and len(m.get('inner', [])) == 3 and \
+                (self.callee_ref(m).get('referencedDecl') or {}).get('name') == 'operator<<' and 'CommaInitializer<' in type_of(m):
+            items.insert(0, m['inner'][2])
+            return m['inner'][1], items
+        return None
+
+    def comma_values(self, items, nkeys, ety, env, pre):
+        if len(items) != nkeys:
+            raise Untranslatable('comma initialiser with %d items for %d coefficients' % (len(items), nkeys))
+        vals = []
+        for it in items:      # evaluated left to right (C++17 sequencing of `<<` and of the overloaded `,`)
+            if classify(type_of(it)) == 'agg':
+                raise Untranslatable('comma initialiser with a non-scalar item')
+            vals.append(self.num_to(self.eval(it, env, pre), ety, env.frame))
+        return vals
+
+    def exec_comma_init(self, s, env, k):
+        """`target << a, b, c;` (Eigen::CommaInitializer): the coefficients of the target (an Eigen lvalue or a view of one) are
+        written in row-major order; every item must be a scalar and the number of items the number of coefficients"""
+        ci = self.comma_items(s)
+        if ci is None:
+            raise Untranslatable('operator call statement operator,')
+        target, items = ci
+        pre = []
+        e2 = env.copy()
+        root, path, vm = self.eigen_view(target, e2)
+        _, st = self.outer_keys(type_of(strip_noop(target)))
+        vals = self.comma_values(items, len(vm), self.tyvar(e2.frame, st), e2, pre)
+        return self.wrap(pre, self.write_view(e2, root, path, [(bk, v) for (sk, bk), v in zip(vm, vals)], k))
+
+    def read_keys(self, base, keys, env, pre):
+        """the coefficients `keys` of the Eigen-typed expression `base`; of a variable / member only these leaves are read"""
+        bb = strip_noop(base)
+        if bb.get('kind') in ('DeclRefExpr', 'MemberExpr') and bb.get('valueCategory') == 'lvalue':
+            root, path = self.resolve_lvalue(bb, env)
+            _, st = self.outer_keys(type_of(bb))
+            ty = self.tyvar(env.frame, st)
+            return {kk: self.read_leaf(env, root, list(path) + [kk], ty) for kk in keys}
+        obj = self.eval_obj(base, env, pre)
+        if not isinstance(obj, dict) or any(not isinstance(obj.get(kk), Sc) for kk in keys):
+            raise Untranslatable('Eigen object without the needed known coefficients')
+        return {kk: obj[kk] for kk in keys}
+
+    AFFINE_KEYS = [(i, j) for i in range(3) for j in range(4)]
+
+    def eigen_geom_member(self, nm, base, bt, args, m, ct, env, pre):
+        """member calls (rvalue uses) on Eigen::Transform<T, 3, Affine> objects, reads of views, `(V() << a, b, c).finished()`;
+        None = not one of them"""
+        frame = env.frame
+        real_args = [a for a in args if a.get('kind') != 'CXXDefaultArgExpr']
+        if nm == 'finished' and not args and 'CommaInitializer<' in bt:
+            ci = self.comma_items(base)
+            if ci is None:
+                raise Untranslatable('finished() of something that is not a comma initialiser chain')
+            target, items = ci
+            tg = strip_noop(target)
+            if tg.get('kind') not in ('CXXTemporaryObjectExpr', 'CXXConstructExpr') or [c for c in tg.get('inner', []) or [] if c.get('kind') != 'CXXDefaultArgExpr']:
+                raise Untranslatable('comma initialiser on an existing object inside an expression')
+            keys, st = self.outer_keys(type_of(tg))
+            vals = self.comma_values(items, len(keys), self.tyvar(frame, st), env, pre)
+            return dict(zip(keys, vals))      # `keys` is in row-major order
+        if self.transform_type(bt) is None:
+            if nm in ('head', 'tail') and not real_args and re.match(r'^(?:const )?(?:Eigen::)?VectorBlock<', strip_cv(type_of(m))) and \
+                    not re.search(r'%s\s*<\s*\d+\s*>' % nm, self.tu.range_text(m)):
+                # `v.head<DIM>()` with a template argument that is not a literal: the size is read from the instantiated result type
+                obj = self.eval_obj(base, env, pre)
+                cnt = len(self.outer_keys(type_of(m))[0])
+                if not isinstance(obj, dict) or not obj or not all(isinstance(kk, tuple) and len(kk) == 1 for kk in obj) or cnt > len(obj) or cnt < 1:
+                    raise Untranslatable('%s<>() of an object that is not a vector with enough known coefficients' % nm)
+                lo = 0 if nm == 'head' else len(obj) - cnt
+                return {(i,): obj[(lo + i,)] for i in range(cnt)}
+            return None
+        if nm == 'linear' and not args:
+            M = self.read_keys(base, [(i, j) for i in range(3) for j in range(3)], env, pre)
+            return M
+        if nm == 'translation' and not args:
+            M = self.read_keys(base, [(i, 3) for i in range(3)], env, pre)
+            return {(i,): M[(i, 3)] for i in range(3)}
+        if nm == 'inverse' and not real_args:
+            return self.affine3_inverse(self.read_keys(base, self.AFFINE_KEYS, env, pre), frame, pre)
+        if nm in ('matrix',) and not args:
+            return None      # (generic: the whole 4x4 matrix)
+        raise Untranslatable('member function `%s` of an Eigen::Transform' % nm)
+
+    def transform_apply(self, tn, vn, env, pre):
+        """`T * v` for `T : Transform<S, 3, Affine>`, `v` a 3-vector (Eigen 3.4 `transform_right_product_impl<…, 2, 1>`): the head of
+        `T.matrix() * (v, 1)`, coefficient i = `((m_i0 * v0 + m_i1 * v1) + m_i2 * v2) + m_i3 * 1`, summed left to right (rows are
+        evaluated packet-wise, each accumulated left to right — the trusted reading shared with the hand-written model)"""
+        frame = env.frame
+        M = self.read_keys(tn, self.AFFINE_KEYS, env, pre)
+        V = self.eval_obj(vn, env, pre)
+        if not isinstance(V, dict) or sorted(V.keys()) != [(0,), (1,), (2,)] or not all(isinstance(x, Sc) for x in V.values()):
+            raise Untranslatable('Transform * something that is not a 3-vector with known coefficients')
+        ty = M[(0, 0)].ty
+        if any(x.ty != ty for x in V.values()):
+            raise Untranslatable('Transform * vector of another scalar type')
+        for cls in ('Add', 'Mul', 'NatCast'):
+            frame.need(cls, ty)
+        top = frame.top()
+        top.nprod = getattr(top, 'nprod', 0) + 1
+        res = {}
+        for i in range(3):
+            acc = '(%s * %s)' % (par(M[(i, 0)].t), par(V[(0,)].t))
+            for j in (1, 2):
+                acc = '(%s + (%s * %s))' % (acc, par(M[(i, j)].t), par(V[(j,)].t))
+            acc = '(%s + (%s * ((1 : Nat) : %s)))' % (acc, par(M[(i, 3)].t), TY_LEAN[ty])
+            name = frame.fresh('prod%d_%d' % (top.nprod, i))
+            pre.append(('let', name, unpar(acc)))
+            res[(i,)] = Sc(name, ty)
+        return res
+
+    def affine3_inverse(self, M, frame, pre):
+        """`Transform<double, 3, Affine>::inverse()` (hint = Affine), as Eigen 3.4 computes it for fixed size 3 with SSE2 packets of two
+        doubles (`Geometry/Transform.h` `Transform::inverse`, `LU/InverseImpl.h` "Size 3 implementation", `Core/Redux.h`):
+        linear part by cofactors — `det = c00 * m00 + (c10 * m10 + c20 * m20)` (the unrolled scalar redux of a 3-vector splits 1 + 2),
+        `invdet = 1 / det`, entry (r, c) = `cofactor<c, r> * invdet` —, translation `(-Linv) * t` with rows 0, 1 accumulated left to
+        right (one packet) and row 2 by the scalar redux `a0 + (a1 + a2)`, last row `0 0 0 1` (`makeAffine`). A trusted reading of the
+        library, the same as the hand-written model's (checked bit for bit by the correspondence run), only for `double`."""
+        ty = M[(0, 0)].ty
+        if frame.top().float_map.get('double') != ty:
+            raise Untranslatable('Transform::inverse() of a transform that is not over `double`')
+        for cls in ('Add', 'Sub', 'Mul', 'Div', 'Neg', 'NatCast'):
+            frame.need(cls, ty)
+        tv = TY_LEAN[ty]
+
+        def mm(i, j):
+            return par(M[(i, j)].t)
+
+        def cof(i, j):
+            i1, i2, j1, j2 = (i + 1) % 3, (i + 2) % 3, (j + 1) % 3, (j + 2) % 3
+            return '((%s * %s) - (%s * %s))' % (mm(i1, j1), mm(i2, j2), mm(i1, j2), mm(i2, j1))
+
+        def let(base, term):
+            name = frame.fresh(base)
+            pre.append(('let', name, unpar(term)))
+            return name
+        c = [let('inv_cof%d0' % kk, cof(kk, 0)) for kk in range(3)]
+        det = let('inv_det', '((%s * %s) + ((%s * %s) + (%s * %s)))' % (c[0], mm(0, 0), c[1], mm(1, 0), c[2], mm(2, 0)))
+        invdet = let('inv_invdet', '(((1 : Nat) : %s) / %s)' % (tv, det))
+        L = {}
+        for cc in range(3):
+            L[(0, cc)] = let('inv_0_%d' % cc, '(%s * %s)' % (c[cc], invdet))
+        for r in (1, 2):
+            for cc in range(3):
+                L[(r, cc)] = let('inv_%d_%d' % (r, cc), '(%s * %s)' % (cof(cc, r), invdet))
+        res = {}
+        for r in range(3):
+            t = ['((-%s) * %s)' % (L[(r, cc)], mm(cc, 3)) for cc in range(3)]
+            term = '((%s + %s) + %s)' % (t[0], t[1], t[2]) if r < 2 else '(%s + (%s + %s))' % (t[0], t[1], t[2])
+            res[(r, 3)] = Sc(let('inv_%d_3' % r, term), ty)
+            for cc in range(3):
+                res[(r, cc)] = Sc(L[(r, cc)], ty)
+        for cc in range(4):
+            res[(3, cc)] = Sc('((%d : Nat) : %s)' % (1 if cc == 3 else 0, tv), ty)
+        return res
+
+    # ------------------------------------------------------------------ phase 3: oracles, elements of vectors of Eigen vectors, std::copy
+    def function_by_signature(self, rd):
+        """the unique function DEFINITION of the translation unit with the name and the type of the referenced declaration `rd` (its
+        body was dumped by another clang pass — ids differ between passes —: a function of an anonymous namespace called from `romea`)"""
+        nm, ty = rd.get('name'), (rd.get('type') or {}).get('qualType')
+        if not nm or not ty or rd.get('kind') not in ('FunctionDecl',):
+            return None
+        c = [d for fid, d in self.tu.funcs.items() if d.get('name') == nm and (d.get('type') or {}).get('qualType') == ty
+             and d.get('kind') == 'FunctionDecl' and not self.tu._dependent(d)]
+        return c[0] if len(c) == 1 else None
+
+    def oracle_leaves(self, nm, mid, base, env, preread=False, which='writes'):
+        """[(root, path)] of the member leaves an oracle call writes (spec key `oracles`: name -> dict(writes=[members], hides=[members]))"""
+        o = self.spec['oracles'][nm]
+        root, path = self.resolve_lvalue(base, env)
+        rec = self.tu.records.get(self.tu.parent.get(mid)) or self.tu.record_of(self.tu.decl_by_id.get(mid) or {})
+        if not rec:
+            raise Untranslatable('oracle `%s`: class of the member function not found' % nm)
+        out = []
+        for mem in o.get(which, []):
+            fd = [c for c in rec.get('inner', []) or [] if c.get('kind') == 'FieldDecl' and c.get('name') == mem]
+            if len(fd) != 1:
+                raise Untranslatable('oracle `%s`: member `%s` not found in %s' % (nm, mem, rec.get('_qual')))
+            ft = type_of(fd[0])
+            lv = [([], ft)] if classify(ft) != 'agg' else self.shape_of(ft)
+            for p_, st in lv:
+                full = list(path) + [mem] + list(p_)
+                if preread and self.lookup(env, root, full) is None and root not in env.local_roots:
+                    self.read_leaf(env, root, full, self.tyvar(env.frame, st))
+                out.append((root, tuple(full), st))
+        return [(r, p) for r, p, _ in out] if preread else out
+
+    def oracle_call(self, nm, mid, base, n, env, pre, target=None):
+        """a call of a member function listed in the spec's `oracles` (a numerical routine that stays a PARAMETER of the model: k-NN
+        query + eigen-decomposition, least-squares solver). Spec entry: name -> dict(writes=[members], reads=[members], hides=[members]).
+        Every leaf of the members in `writes`, and the result (a scalar, or — `target` — the coefficients of the fixed-size object the
+        result is converted to), becomes the application of an uninterpreted function `<oracle>_<leaf>` / `<oracle>_ret…` to the SCALAR
+        arguments of the call followed by the current values of the members in `reads`. What the oracle depends on besides them — the
+        aggregate arguments (required to be const-reference parameters of the translated function, so that they are the same at every
+        call), the other members of its object — is not represented: the function parameter stands for the oracle on this object and
+        these aggregates. Members in `hides` (modified or read by the oracle, not modelled) may not be read by any translated function."""
+        if pre is None:
+            raise Untranslatable('oracle call `%s` inside an expression' % nm)
+        frame = env.frame
+        o = self.spec['oracles'][nm]
+        vs = []
+        for a in n['inner'][1:]:
+            if a.get('kind') == 'CXXDefaultArgExpr':
+                raise Untranslatable('oracle call `%s` with a default argument' % nm)
+            if classify(type_of(a)) in ('agg', 'list', 'seq', 'dyn') or self.is_list(type_of(a)):
+                m_ = strip_noop(a)
+                rd = m_.get('referencedDecl') or {}
+                pd = self.tu.decl_by_id.get(rd.get('id')) or {}
+                qt = (pd.get('type') or {}).get('qualType', '') or (rd.get('type') or {}).get('qualType', '')
+                if m_.get('kind') != 'DeclRefExpr' or rd.get('kind') != 'ParmVarDecl' or not (re.match(r'^const\b', qt.strip()) and qt.rstrip().endswith('&')):
+                    raise Untranslatable('oracle call `%s`: an aggregate argument that is not a const-reference parameter' % nm)
+                continue
+            v = self.eval(a, env, pre)
+            if v.ty not in ('a', 'd', 'i', 'b'):
+                raise Untranslatable('oracle call `%s`: argument of kind %s' % (nm, v.ty))
+            vs.append(v)
+        for root, path, st in self.oracle_leaves(nm, mid, base, env, which='reads'):
+            vs.append(self.read_leaf(env, root, list(path), self.tyvar(frame, st)))
+
+        def apply(leaf, ty):
+            fty = ' → '.join([TY_LEAN[v.ty] for v in vs] + [TY_LEAN[ty]])
+            fn = self.uninterp_param(env, lean_ident(nm + '_' + leaf), fty)
+            return '(%s %s)' % (fn, ' '.join(par(v.t) for v in vs)) if vs else fn
+        res = None
+        rt = type_of(n)
+        if target is not None:
+            res = {}
+            for p_, st in self.shape_of(target):
+                ty = self.tyvar(frame, st)
+                name = frame.fresh(lean_ident(nm + '_ret'))
+                pre.append(('let', name, unpar(apply('ret_' + path_name('', list(p_)), ty))))
+                res[p_[0]] = Sc(name, ty)
+        elif classify(rt) in ('double', 'float', 'int', 'uint', 'bool'):
+            ty = self.tyvar(frame, rt)
+            res = Sc(apply('ret', ty), ty)
+        elif classify(rt) != 'void':
+            raise Untranslatable('oracle `%s`: a result of type %s used as it is' % (nm, strip_cv(rt)))
+        for root, path, st in self.oracle_leaves(nm, mid, base, env):
+            ty = self.tyvar(frame, st)
+            name = frame.fresh(path_name(self.root_name(frame, root), list(path)))
+            pre.append(('let', name, unpar(apply(path_name('', [p_ for p_ in path if p_ not in self.resolve_lvalue(base, env)[1]]), ty))))
+            self.write(env, root, list(path), Sc(name, ty))
+        return res
+
+    def is_oracle_call(self, n):
+        m = strip_noop(n)
+        while m.get('kind') in ('ImplicitCastExpr', 'CXXConstructExpr', 'CXXFunctionalCastExpr') and len(m.get('inner', []) or []) == 1:
+            m = strip_noop(m['inner'][0])
+        return m.get('kind') == 'CXXMemberCallExpr' and self.callee_ref(m).get('kind') == 'MemberExpr' and \
+            self.callee_ref(m).get('name') in self.spec.get('oracles', {})
+
+    def oracle_value(self, n, target, env, pre):
+        m = strip_noop(n)
+        while m.get('kind') in ('ImplicitCastExpr', 'CXXConstructExpr', 'CXXFunctionalCastExpr') and len(m.get('inner', []) or []) == 1:
+            m = strip_noop(m['inner'][0])
+        callee = self.callee_ref(m)
+        return self.oracle_call(callee.get('name'), callee.get('referencedMemberDecl'), callee['inner'][0], m, env, pre, target=target)
+
+    # ---- dynamic-size Eigen matrices as functional arrays
+    def is_dyn_elem(self, n):
+        """`M(i, j)`, `v(i)`, `v[i]` with `M` / `v` an lvalue of a dynamic-size Eigen matrix / vector type"""
+        m = strip_noop(n)
+        if m.get('kind') != 'CXXOperatorCallExpr' or len(m.get('inner', [])) not in (3, 4):
+            return False
+        if (self.callee_ref(m).get('referencedDecl') or {}).get('name') not in ('operator()', 'operator[]'):
+            return False
+        di = dyn_info(type_of(strip_noop(m['inner'][1])))
+        return di is not None and di[1] == len(m['inner']) - 2
+
+    def dyn_parts(self, n, env, pre):
+        m = strip_noop(n)
+        bn = strip_noop(m['inner'][1])
+        root, path = self.resolve_lvalue(bn, env)
+        ty = self.tyvar(env.frame, type_of(bn))
+        cur = self.read_leaf(env, root, path, ty)
+        idx = [self.eval(a, env, pre) for a in m['inner'][2:]]
+        if any(i.ty != 'i' for i in idx):
+            raise Untranslatable('index of a dynamic matrix that is not an integer')
+        return root, path, ty, cur, idx
+
+    def dyn_read(self, n, env, pre):
+        root, path, ty, cur, idx = self.dyn_parts(n, env, pre)
+        return Sc('(%s %s)' % (par(cur.t), ' '.join(par(i.t) for i in idx)), ty[2])
+
+    def exec_dyn_assign(self, lhs, rhs, op, node, env, k):
+        """`M(i, j) = x` / `v(i) = x` (also compound) on a dynamic-size Eigen matrix: the functional array updated at that index"""
+        frame = env.frame
+        pre = []
+        v = self.eval(rhs, env, pre)
+        root, path, ty, cur, idx = self.dyn_parts(lhs, env, pre)
+        if v.ty != ty[2]:
+            v = self.convert(v, frame, dyn_info(type_of(strip_noop(strip_noop(lhs)['inner'][1])))[0])
+        if op:
+            cls = {'+': 'Add', '-': 'Sub', '*': 'Mul', '/': 'Div'}.get(op)
+            if not cls:
+                raise Untranslatable('compound operator %s= on a coefficient of a dynamic matrix' % op)
+            frame.need(cls, ty[2])
+            v = Sc('((%s %s) %s %s)' % (par(cur.t), ' '.join(par(i.t) for i in idx), op, par(v.t)), ty[2])
+        helper = 'dynSet%d' % len(idx)
+        self.need_helper(helper)
+        name = frame.fresh(path_name(self.root_name(frame, root), path))
+        self.write(env, root, path, Sc(name, ty))
+        return self.wrap(pre, ('let', name, '%s %s %s %s' % (helper, par(cur.t), ' '.join(par(i.t) for i in idx), par(v.t)), k(env)))
+
+    def is_tuple_elem(self, n):
+        """`v[i]` with `v` a std::vector of small fixed-size Eigen vectors (checked encoding: a list of coordinate tuples)"""
+        if not self.is_vec_elem(n):
+            return False
+        bt = type_of(strip_noop(n)['inner'][1])
+        return classify(bt) == 'agg' and self.is_list(bt)
+
+    def tuple_elem_store(self, n, obj, env, pre):
+        """`v[i] = obj` (all coordinates): `vecSet? v i (x0, x1, …)`; `none` if `i` is outside `v`"""
+        frame = env.frame
+        m = strip_noop(n)
+        root, path = self.resolve_lvalue(m['inner'][1], env)
+        lty = self.tyvar(frame, type_of(m['inner'][1]))
+        cur = self.read_leaf(env, root, path, lty)
+        idx = self.eval(m['inner'][2], env, pre)
+        cnt = int(lty[1])
+        if idx.ty != 'i' or sorted(obj.keys()) != [(i,) for i in range(cnt)] or not all(isinstance(obj[(i,)], Sc) and obj[(i,)].ty == lty[2] for i in range(cnt)):
+            raise Untranslatable('write of a vector element of another shape')
+        self.need_helper('vecSet?')
+        self.set_partial(frame)
+        name = frame.fresh(path_name(self.root_name(frame, root), path))
+        pre.append(('bind', name, 'vecSet? %s %s %s' % (par(cur.t), par(idx.t), tuple_term([obj[(i,)].t for i in range(cnt)]))))
+        self.write(env, root, path, Sc(name, lty))
+
+    def data_base(self, n):
+        """`X` of the expression `X.data()` on an Eigen object (None otherwise)"""
+        m = strip_noop(n)
+        if m.get('kind') != 'CXXMemberCallExpr' or len(m.get('inner', [])) != 1:
+            return None
+        callee = self.callee_ref(m)
+        if callee.get('name') != 'data' or not callee.get('inner') or not self.is_eigen_type(type_of(callee['inner'][0])):
+            return None
+        return callee['inner'][0]
+
+    def storage_keys(self, ctype):
+        """coefficient keys of a fixed-size Eigen matrix type in STORAGE order (column-major unless the Options argument says RowMajor)"""
+        keys, st = self.outer_keys(ctype)
+        if keys and all(len(kk) == 1 for kk in keys):
+            return keys, st      # a vector: one storage order
+        mm = re.search(r'\bMatrix<\s*[\w ]+?\s*,\s*(-?\d+)\s*,\s*(-?\d+)\s*(?:,\s*(\d+))?', strip_cv(ctype))
+        if not mm:
+            raise Untranslatable('storage order of %s' % strip_cv(ctype)[:100])
+        if keys and len(keys[0]) == 2:
+            r, c = int(mm.group(1)), int(mm.group(2))
+            if int(mm.group(3) or 0) & 1:
+                return [(i, j) for i in range(r) for j in range(c)], st
+            return [(i, j) for j in range(c) for i in range(r)], st
+        return keys, st
+
+    def std_copy_data(self, args, env, pre):
+        """`std::copy(A.data(), A.data() + K, B.data())` on fixed-size Eigen objects, K a constant: the first K coefficients of A in
+        storage order are written over the first K coefficients of B in storage order (B may be an element `v[i]` of a std::vector
+        of Eigen vectors). False = not this pattern."""
+        A, B = self.data_base(args[0]), self.data_base(args[2])
+        e1 = strip_noop(args[1])
+        if A is None or B is None or e1.get('kind') != 'BinaryOperator' or e1.get('opcode') != '+':
+            return False
+        A2 = self.data_base(e1['inner'][0])
+        if A2 is None or pre is None:
+            return False
+        if self.resolve_lvalue(A, env) != self.resolve_lvalue(A2, env):
+            raise Untranslatable('std::copy over data() of two different objects')
+        K = self.const_int(e1['inner'][1], env)
+        ka, sta = self.storage_keys(type_of(strip_noop(A)))
+        kb, stb = self.storage_keys(type_of(strip_noop(B)))
+        if not 0 <= K <= min(len(ka), len(kb)) or strip_cv(sta) != strip_cv(stb):
+            raise Untranslatable('std::copy over data(): count / scalar types')
+        src = self.read_keys(A, ka[:K], env, pre)
+        if self.is_tuple_elem(B):
+            obj = dict(self.eval_obj(B, env, pre)) if K < len(kb) else {}      # (the old coordinates are read only when some survive)
+            for i in range(K):
+                obj[kb[i]] = src[ka[i]]
+            self.tuple_elem_store(B, obj, env, pre)
+            return True
+        root, path = self.resolve_lvalue(B, env)
+        for i in range(K):
+            self.write(env, root, list(path) + [kb[i]], src[ka[i]])
+        return True
 
     # ---- for loops with a constant trip count (unrolled) / a loop-invariant bound (counted)
     def for_parts(self, init, cond, inc, body):
@@ -3332,6 +4098,9 @@ class Translator:
             kd = x.get('kind')
             if kd == 'ImplicitCastExpr' and x.get('castKind') == 'LValueToRValue':
                 return False      # a read
+            if kd == 'ImplicitCastExpr' and x.get('castKind') == 'NoOp' and x.get('valueCategory') == 'lvalue' and \
+                    re.match(r'^const\b', ((x.get('type') or {}).get('qualType') or '').strip()):
+                return False      # phase 3: bound to a CONST reference (`f(…, n)` with `const size_t & pointIndex`): a read
             if kd == 'DeclRefExpr' and (x.get('referencedDecl') or {}).get('id') == vid:
                 return 'const' not in ((x.get('type') or {}).get('qualType') or '')      # an lvalue use that is not a read
             return any(refs(y, under_rvalue) for y in x.get('inner', []) or [] if isinstance(y, dict))
@@ -3530,6 +4299,12 @@ class Translator:
                 return self.block_assign(s['inner'][1], s['inner'][2], env, k)
             if nm == 'operator=' and self.is_list_index(strip_noop(s['inner'][1])):
                 return self.exec_list_assign(strip_noop(s['inner'][1]), s['inner'][2], None, s, env.copy(), k)
+            if nm == 'operator=' and self.is_vec_elem(s['inner'][1]) and classify(type_of(strip_noop(s['inner'][1])['inner'][1])) == 'agg':
+                return self.exec_vec_tuple_assign(s['inner'][1], s['inner'][2], env, k)      # phase 3: `v[i] = x;`, v a std::vector of Eigen vectors
+            if nm == 'operator,' and 'CommaInitializer<' in type_of(s):      # phase 3: `target << a, b, c;`
+                return self.exec_comma_init(s, env, k)
+            if nm == 'operator=' and self.is_eigen_view(s['inner'][1]):      # phase 3: `T.translation() = expr;`, `M.col(j) = expr;`
+                return self.view_assign(s['inner'][1], s['inner'][2], env, k)
             if nm == 'operator=':
                 pre = []
                 obj = self.eval_obj(s['inner'][2], env, pre)
@@ -3655,6 +4430,14 @@ class Translator:
         if classify(ct) == 'agg':
             obj = self.eval_obj(init[0], env, pre)
             return self.wrap(pre, self.bind_obj(env, vid, [], obj, k))
+        if v.get('constexpr') and classify(ct) in ('int', 'uint'):
+            # phase 3: `constexpr int DIM = Traits<T>::DIM;` whose initialiser cannot be followed (a static member of a class the dump does
+            # not hold): a constant expression has no side effect; the local stays WITHOUT a value (any read of it is an error), its
+            # uses as a template argument are already substituted in the types of the instantiated code
+            try:
+                self.eval(init[0], env.copy(), [])
+            except Untranslatable as ex:
+                return ('note', 'constexpr %s %s: value not followed (%s); usable only through the instantiated types' % (qt, name, str(ex)[:80]), k(env))
         sc = self.eval(init[0], env, pre)
         if sc is None:
             raise Untranslatable('void initialiser of `%s`' % name)
@@ -3699,6 +4482,8 @@ class Translator:
         pre = []
         if self.is_vec_elem(lhs):      # phase 2: `v[i] = x` on a std::vector of scalars
             return self.exec_vec_assign(lhs, rhs, op, node, env, k)
+        if self.is_dyn_elem(lhs):      # phase 3: `M(i, j) = x` on a dynamic Eigen matrix
+            return self.exec_dyn_assign(lhs, rhs, op, node, env, k)
         if self.is_list_index(strip_noop(lhs)):
             return self.exec_list_assign(strip_noop(lhs), rhs, op, node, env, k)
         if classify(lt) == 'agg':
@@ -3983,6 +4768,14 @@ class Translator:
                 tgt = n['inner'][1]
             if tgt is not None and self.is_vec_elem(tgt):      # phase 2: `v[i] = x` assigns the vector `v`
                 tgt = strip_noop(tgt)['inner'][1]
+            if tgt is not None and self.is_dyn_elem(tgt):      # phase 3: `M(i, j) = x` assigns the functional array `M` (one leaf)
+                bn = strip_noop(tgt)['inner'][1]
+                if root_decl(bn) not in declared:
+                    root, path = self.resolve_lvalue(bn, env)
+                    if self.lookup(env, root, list(path)) is None and root not in env.local_roots:
+                        self.read_leaf(env, root, list(path), self.tyvar(env.frame, type_of(bn)))
+                    found.append((root, tuple(path)))
+                tgt = None
             if kd == 'CXXMemberCallExpr' and self.callee_ref(n).get('name') in self.VEC_MUTATORS and self.callee_ref(n).get('inner') \
                     and self.is_list(type_of(self.callee_ref(n)['inner'][0])):
                 tgt = self.callee_ref(n)['inner'][0]
@@ -4007,6 +4800,13 @@ class Translator:
                 for p_, st in self.shape_of(type_of(bn)):
                     found.append((root, tuple(path) + tuple(p_)))
                 tgt = None
+            if tgt is not None and root_decl(tgt) not in declared and self.is_list(type_of(tgt)):
+                root, path = self.resolve_lvalue(tgt, env)      # phase 3: `v[i] = x` assigns the list `v`; a reference parameter / member that
+                if self.lookup(env, root, list(path)) is None and root not in env.local_roots:      # nothing has read yet gets its value here
+                    self.read_leaf(env, root, list(path), self.tyvar(env.frame, type_of(tgt)))
+                if classify(type_of(tgt)) == 'agg':      # (a std::vector of Eigen vectors is ONE leaf)
+                    found.append((root, tuple(path)))
+                    tgt = None
             if tgt is not None and root_decl(tgt) not in declared:
                 root, path = self.resolve_lvalue(tgt, env)
                 if classify(type_of(tgt)) == 'agg':
@@ -4026,9 +4826,22 @@ class Translator:
                     root, path = self.abstract_lvalue(ab, env)
                     self.read_leaf(env, root, path, 'o')      # (a member gets its value before the loop)
                     found.append((root, tuple(path)))
-            if kd in ('CallExpr', 'CXXMemberCallExpr'):
+            if kd == 'CXXMemberCallExpr' and self.callee_ref(n).get('name') in self.spec.get('oracles', {}):
+                for lf in self.oracle_leaves(self.callee_ref(n).get('name'), self.callee_ref(n).get('referencedMemberDecl'),
+                                             self.callee_ref(n)['inner'][0], env, preread=True):      # phase 3
+                    found.append(lf)
+            if kd == 'CallExpr' and (self.callee_ref(n).get('referencedDecl') or {}).get('name') == 'copy' and len(n.get('inner', [])) == 4:
+                tg = self.data_base(n['inner'][3])      # phase 3: std::copy(…, …, B.data()) assigns B
+                if tg is not None and self.is_tuple_elem(tg) and root_decl(strip_noop(tg)['inner'][1]) not in declared:
+                    root, path = self.resolve_lvalue(strip_noop(tg)['inner'][1], env)
+                    if self.lookup(env, root, list(path)) is None and root not in env.local_roots:
+                        self.read_leaf(env, root, list(path), self.tyvar(env.frame, type_of(strip_noop(tg)['inner'][1])))
+                    found.append((root, tuple(path)))
+            if kd in ('CallExpr', 'CXXMemberCallExpr') and self.callee_ref(n).get('name') not in self.spec.get('oracles', {}):
                 callee = self.callee_ref(n)
                 decl = self.function_def(callee.get('referencedMemberDecl') or (callee.get('referencedDecl') or {}).get('id'))
+                if decl is None and kd == 'CallExpr':
+                    decl = self.function_by_signature(callee.get('referencedDecl') or {})
                 if decl is not None:
                     info = self.translate_fn(decl)
                     for (root, path, ty) in info.written:
@@ -4036,9 +4849,20 @@ class Translator:
                             lv = self.resolve_lvalue(callee['inner'][0], env)
                         else:
                             a = n['inner'][1 + root]
+                            if self.is_tuple_elem(a):      # phase 3: the callee writes `v[n]`: the list `v` is assigned
+                                if root_decl(strip_noop(a)['inner'][1]) not in declared:
+                                    lr, lp = self.resolve_lvalue(strip_noop(a)['inner'][1], env)
+                                    if self.lookup(env, lr, list(lp)) is None and lr not in env.local_roots:
+                                        self.read_leaf(env, lr, list(lp), self.tyvar(env.frame, type_of(strip_noop(a)['inner'][1])))
+                                    found.append((lr, tuple(lp)))
+                                continue
                             if root_decl(a) in declared:
                                 continue
                             lv = self.resolve_lvalue(a, env)
+                        if self.lookup(env, lv[0], list(lv[1]) + list(path)) is None and lv[0] not in env.local_roots:
+                            # phase 3: a member / reference-parameter leaf the callee writes and nothing has read yet: it gets its value
+                            # (a parameter of the enclosing function) before the loop
+                            self.read_leaf(env, lv[0], list(lv[1]) + list(path), self.map_ty(info, ty, env.frame))
                         found.append((lv[0], tuple(lv[1]) + tuple(path)))
             for c in n.get('inner', []) or []:
                 if isinstance(c, dict):
@@ -4389,7 +5213,8 @@ class Translator:
     def signature(self, frame, params, fuel, ret_tys=()):
         tys = set(ty for _, ty in params) | set(ret_tys) | set(tv for _, tv in frame.classes)
         tys |= set(ty[1] for ty in tys if len(ty) == 2 and ty[0] == 'l')
-        tys |= set(ty[2] for ty in tys if len(ty) == 3 and ty[0] == 'L')
+        tys |= set(ty[2] for ty in tys if len(ty) == 3 and ty[0] in ('L', 'M'))
+        tys |= set(c for ty in tys if len(ty) >= 2 and ty[0] == 'T' for c in ty[1:] if c in ('a', 'd'))
         for _, ty in params:
             if ty not in TY_LEAN:
                 tys |= {'a'} if 'α' in ty else set()
@@ -4431,9 +5256,13 @@ class Translator:
                     c = classify(q)
                     if c in ('double', 'float'):
                         found.add(c)
-                    elif c in ('agg', 'list', 'seq'):      # Eigen matrices / arrays / standard containers of float or double
+                    elif c in ('agg', 'list', 'seq', 'dyn'):      # Eigen matrices / arrays / standard containers of float or double
                         for em in re.finditer(r'\b(?:Matrix|Array|vector|queue|deque)<\s*(float|double)\b', q):
                             found.add(em.group(1))
+                        if vec_elem(q) is not None and self.is_struct_list(q):      # phase 3: std::vector of a struct: its members' types
+                            for _, st_ in self.shape_of(vec_elem(q)):
+                                if classify(st_) in ('double', 'float'):
+                                    found.add(classify(st_))
             for c in n.get('inner', []) or []:
                 if isinstance(c, dict):
                     walk(c)
@@ -4445,6 +5274,10 @@ class Translator:
             return {'float': 'a', 'double': 'd'}
         if found == {'float'}:
             return {'float': 'a'}
+        if not found:      # phase 3: no floating type in the function itself: a member of `C<float, …>` works in `float` (its callees do)
+            mq = re.search(r'<(.*)>$', self.tu.record_of(decl).get('_qual', ''))
+            if mq and 'float' in [x.strip() for x in mq.group(1).split(',')] and 'double' not in [x.strip() for x in mq.group(1).split(',')]:
+                return {'float': 'a'}
         return {'double': 'a'}
 
     def lean_name(self, decl, suffix=''):
